@@ -4,6 +4,8 @@ import CssVerif.Lemmas.MediaTotal
 import CssVerif.Lemmas.TokDom
 import CssVerif.Lemmas.ParseSteps
 import CssVerif.Lemmas.StructLocal
+import CssVerif.Lemmas.ParseAllDom
+import CssVerif.Lemmas.MediaPrelude
 import CssVerif.Props.C05
 import CssVerif.Props.C04
 /-!
@@ -151,6 +153,27 @@ theorem composed_parse_local (ext₁ ext₂ : Struct.Oracle) (M : List Proto.Cps
   obtain ⟨h1, _, _, h4, h5⟩ := h l hl
   exact ⟨h1, fun _ => rfl, rfl, h4, h5⟩
 
+/-- the token stream of every text is in the domain `tokWF` of the dispatcher model (an EOF token only as the last
+token, a CHAR is one character): the domain on which the drivers run `Struct` and C04's containment theorems speak -/
+theorem token_stream_in_dispatcher_domain (text : Proto.Cps) (doC : Bool) :
+    Struct.tokWF (ParseAll.structToks (ParseAll.stream text doC)) = true :=
+  ParseAllDom.stream_tokWF text doC
+
+/-- a list of dispatcher tokens drawn from the stream is looked up, position by position, to exactly the tuples it was
+made from: the sub-parsers of the composition receive what the dispatcher collected, nothing lost or replaced -/
+theorem prelude_lookup_faithful (items : List Tok.Item) (l : List Struct.Tok)
+    (h : StructLocal.Sub l (ParseAll.structToks items)) :
+    (ParseAll.lookup items l).length = l.length ∧
+    ∀ (i : Nat) (t : Struct.Tok), l[i]? = some t →
+      ∃ it, (ParseAll.lookup items l)[i]? = some it ∧ t = ParseAll.structTok t.pos it :=
+  ParseAllDom.lookup_list items l h
+
+/-- the EOF conjunct of `mediaDom` holds for every prelude the dispatcher hands to the media engine: `_tokensupto2`
+stops at the first EOF and `separateEnd` takes the last token off (`cssmediarule.py:104-106`) -/
+theorem media_prelude_never_holds_eof (rest0 : List Struct.Tok) :
+    ∀ t ∈ (Struct.sepEnd (Struct.upto .mq none rest0).1).1, t.typ ≠ .eof :=
+  MediaPrelude.media_prelude_noEof rest0
+
 /-- T1.4 FULL statement wanted: one cost function of the text that counts every token taken from an iterator by any
 loop of the composed kernels, with a bound quadratic in the number of tokens (quadratic because each level of
 `@media` inside `@media` collects its block again). Proved — the pieces such a bound is made of:
@@ -209,6 +232,9 @@ example (O : Struct.Oracle) (ts : List Struct.Tok) :
   intro l hl
   have : l.all (· ∈ ts) = true := by simpa [StructLocal.Sub] using hl
   exact ⟨by simp [this], fun _ => rfl, rfl, fun _ _ => rfl, rfl⟩
+-- a `Sub` list exists for `prelude_lookup_faithful`, and `tokWF` on a concrete sheet (test)
+example (items : List Tok.Item) : StructLocal.Sub [] (ParseAll.structToks items) := fun _ h => by cases h
+example : Struct.tokWF (ParseAll.structToks (ParseAll.stream (Proto.cps "a{b:c}") true)) = true := by decide
 -- the domains are inhabited by ordinary tokens, and the machines do answer both ways on them
 example : ParseAll.selDom ⟨.ident, [97]⟩ = true ∧ ParseAll.selDom ⟨.char, [62]⟩ = true := by decide
 example : ParseAll.selRun [] [⟨.ident, [97]⟩, ⟨.char, [62]⟩, ⟨.ident, [98]⟩] = .ok true := by decide
